@@ -112,7 +112,8 @@ class Gateway:
                 )
                 delay = self.connect_delay(self.connects) if self.connect_delay else 0.0
                 self._later(ConnectResponse(communication_channel=self.next_channel,
-                                            data_endpoint=HPAI(*GW), crd=crd), delay)
+                                            data_endpoint=HPAI() if b.data_endpoint.route_back else HPAI(*GW),
+                                            crd=crd), delay)
         elif isinstance(b, DisconnectRequest):
             if self.answer_disconnect:
                 self._later(DisconnectResponse(communication_channel_id=b.communication_channel_id))
